@@ -228,6 +228,21 @@ World *build_forward(const J &plan)
 			a.push_back(0xc0); a.push_back(12); put16(a, 16); put16(a, 1); put32(a, 60);
 			char mk[48]; int n = snprintf(mk, sizeof mk, "reply-%llu", (unsigned long long)++fw->reply_serial);
 			put16(a, (uint16_t)(n + 1)); a.push_back((uint8_t)n); a.insert(a.end(), mk, mk + n);
+			// other legal reply shapes: a bare 12-byte header (FORMERR/REFUSED/NOTIMP without question), and answers well beyond 512
+			// bytes (the forwarded query advertised EDNS0)
+			uint64_t sk = fw->reply_serial;
+			switch (S.D("ldns.shape", sk) % 12) {
+			case 0: { a.resize(12); static const uint8_t rc[] = {1, 5, 4, 2}; a[3] = (uint8_t)(0x80 | rc[S.D("ldns.rc", sk) % 4]); a[4] = a[5] = a[6] = a[7] = 0; S.count("fault.localdns.header_only"); break; }
+			case 1: case 2: {
+				size_t want = (size_t)S.R("ldns.big", sk, 513, S.D("ldns.bigk", sk) % 2 ? 1232 : 4096);
+				int extra = 0;
+				while (a.size() + 12 + 200 < want) { a.push_back(0xc0); a.push_back(12); put16(a, 16); put16(a, 1); put32(a, 60); put16(a, 201); a.push_back(200); for (int i = 0; i < 200; i++) a.push_back((uint8_t)('a' + (i + extra) % 26)); extra++; }
+				if (a.size() < want && want - a.size() > 13) { size_t m2 = want - a.size() - 13; if (m2 > 255) m2 = 255; a.push_back(0xc0); a.push_back(12); put16(a, 16); put16(a, 1); put32(a, 60); put16(a, (uint16_t)(m2 + 1)); a.push_back((uint8_t)m2); for (size_t i = 0; i < m2; i++) a.push_back('z'); extra++; }
+				a[6] = (uint8_t)((1 + extra) >> 8); a[7] = (uint8_t)(1 + extra);
+				S.count("fault.localdns.large_reply");
+				break; }
+			default: break;
+			}
 			Addr dst = d.src; Sock *ls = fw->local;
 			S.after(delay, [&S, ls, dst, a]() { S.send_from(ls, dst, a); });
 		};
